@@ -177,6 +177,19 @@ _app("C16", "App.tla carries the check() predicate and the ping thread's stampin
      "report no later than 2 timeouts after the first unanswered ping, never for a responsive peer.",
      "TLC model checking over the interval/timeout grid (with the repaired defect re-enabled as a negative control) + TLC trace validation")
 
+CHECKS["C11"] = dict(
+    engine="Tls+TlsMC+TlsBatch",
+    technique="TLA+ decision table (Tls!Outcome) with meta-properties and the connect sequence machine checked by TLC; TLC batch "
+              "validation of real TLS handshakes (Python ssl over a socket pair, offline test PKI), direct and through a CONNECT proxy",
+    text="Tls.tla defines which checks apply for every combination of the documented sslopt keys, the CA-bundle variable, scheme and "
+         "path; TLC proves DefaultStrict, OnlyDocumentedWeaken, non-interference of options, TunnelChangesNothing, WsNeverWrapped over the "
+         "whole table and TlsFirstByte / NoWsBeforeVerify on the sequence machine; the real connect path is then run with the real ssl module "
+         "against an in-process TLS server presenting trusted/untrusted x matching/non-matching certificates (quick: pairwise covering array "
+         "plus one-factor-at-a-time around the default, ~450 handshakes; thorough: the full product) and every outcome, first byte on the raw "
+         "stream, SNI and whether WebSocket data reached the server is judged by TLC.",
+    note="Certificate path and host-name validation are OpenSSL's and trusted; the test CA is assumed absent from the system store; "
+         "CERT_NONE with check_hostname=True is outside the space.", ref="4 C11")
+
 NOT_YET = {}
 
 
